@@ -21,7 +21,7 @@
 From Coq Require Import ZArith List Bool Lia.
 Import ListNotations.
 From Osmo Require Import Base.DecModel C15.Model C15.Spec C15.ProofsMap C15.ProofsStep C15.ProofsInv1
-  C15.ProofsCoins C15.ProofsInv2 C15.ProofsSpec C15.ProofsMain C15.Keys C15.ProofsKeys.
+  C15.ProofsCoins C15.ProofsInv2 C15.ProofsSpec C15.ProofsMain C15.ProofsLive C15.Keys C15.ProofsKeys.
 Open Scope Z_scope.
 
 (* the recorded total shares equal the sum of the position shares, after every history *)
@@ -119,6 +119,21 @@ Theorem C15_plain_snapshot_below_value : forall tr st, hist tr st -> plain tr ->
   forall d, amt d (r_snap r) <= amt d (c_value c).
 Proof. exact plain_snapshot_below_value. Qed.
 Print Assumptions C15_plain_snapshot_below_value.
+
+(* "can claim": a claim on a live position returns, unless one of the range assertions of LegacyDec (|x| <= 2^256) /
+   math.Int (256 bits) fails on the growth difference, its product with the shares, the claimable amount or its
+   integer part - or, interval API only, the caller-supplied reference point lies above the accumulator value
+   ([pending] negative).  For the plain API that last case cannot occur. *)
+Theorem C15_claim_returns_unless_overflow : forall tr st rv n, hist tr st -> recv_ok st rv (OClaim n) -> live tr n = true ->
+  (exists tc du, o_res (step st rv (OClaim n)) = Ok (RClaim tc du)) \/
+  exists d, pending tr n d < 0 \/ d_fits (pending tr n d) = false \/
+            d_fits (d_mul (pending tr n d) (shares tr n)) = false \/ d_fits (claimable tr n d) = false \/
+            int_fits (Z.quot (claimable tr n d) P18) = false.
+Proof. exact claim_returns_unless_overflow. Qed.
+Print Assumptions C15_claim_returns_unless_overflow.
+Theorem C15_plain_pending_nonneg : forall tr st, hist tr st -> plain tr -> forall n d, 0 <= pending tr n d.
+Proof. exact plain_pending_nonneg. Qed.
+Print Assumptions C15_plain_pending_nonneg.
 
 (* a call that returns an error has no effect; the calls that return an error are exactly the ones the property
    lists ([invalid]: unknown name, non-positive share change, removing more than held, negative rewards) *)
